@@ -387,6 +387,12 @@ func cmdCheck(args []string) int {
 		for a := range assumptions {
 			as = append(as, a)
 		}
+		as = append(as,
+			"engine: modifies clauses of callee contracts are assumed at call sites; a body is compared with its own modifies clause only syntactically at component granularity (FRAME-GAP lines above list every gap found on this run)",
+			"engine: partial correctness only (termination is not proved); run-time panics are proved absent only in functions with `safety on`, elsewhere they are assumed absent",
+			"engine: sequential semantics: goroutine interleavings are not modelled; channel operations and select have no heap effect and yield arbitrary values; state protected by a lock is assumed stable while the lock is held",
+			"engine: strings are abstract values (equality, length, distinct literals, uninterpreted total order); floating point is uninterpreted; map iteration order is arbitrary (all orders are covered)",
+			"engine: cover (vacuity) queries are advisory: with quantified axioms the solvers mostly answer unknown; non-vacuity is established by the must-fail corpus (./check selftest)")
 		sort.Strings(as)
 		var tb []string
 		for t := range trustedUsed {
